@@ -12,8 +12,10 @@ open DV.C10.Gen
 theorem bits_eq : bits = 16 := by decide
 theorem bits_pos : 0 < bits := by decide
 theorem bitmask_eq : bitmask = 2 ^ bits - 1 := by decide
-theorem overflowmask_eq : overflowmask = 1 := by decide
-theorem compbitmask_eq : compbitmask = bitmask * 2 ^ bits := by decide
+/-- what the carry loops need of `overflowmask`: it keeps a carry of 0 or 1 (any odd mask does) -/
+theorem overflowmask_odd : overflowmask % 2 = 1 := by decide
+/-- what `operator>>` needs of `compbitmask`: it keeps the whole digit above the low `bits` bits -/
+theorem compbitmask_keeps : (compbitmask >>> bits) &&& bitmask = bitmask := by decide
 theorem hexdigits_eq : hexdigits * 4 = bits := by decide
 theorem B_eq : B = 65536 := by decide
 theorem B_def : B = 2 ^ bits := rfl
@@ -68,8 +70,18 @@ theorem and_bitmask (x : Nat) : x &&& bitmask = x % B := by
 theorem shr_bits (x : Nat) : x >>> bits = x / B := by
   rw [Nat.shiftRight_eq_div_pow, B_def]
 
-theorem and_overflowmask (x : Nat) : x &&& overflowmask = x % 2 := by
-  rw [overflowmask_eq]; exact Nat.and_one_is_mod x
+theorem and_overflowmask {c : Nat} (hc : c ≤ 1) : c &&& overflowmask = c := by
+  have h : c = 0 ∨ c = 1 := by omega
+  rcases h with rfl | rfl
+  · exact Nat.zero_and _
+  · rw [Nat.and_comm, Nat.and_one_is_mod]; exact overflowmask_odd
+
+/-- `(temp & compbitmask) >> bits` is `temp >> bits` when that fits one digit -/
+theorem and_compbitmask_shr {t : Nat} (ht : t >>> bits < B) : (t &&& compbitmask) >>> bits = t >>> bits := by
+  rw [Nat.shiftRight_and_distrib]
+  have h1 : t >>> bits = (t >>> bits) &&& bitmask := by
+    rw [and_bitmask, Nat.mod_eq_of_lt ht]
+  rw [h1, Nat.and_assoc, Nat.and_comm bitmask, compbitmask_keeps]
 
 /-! ### val / Wf -/
 
